@@ -29,6 +29,10 @@ def check(ctx: Ctx):
     from ..rules import support as _sup_r11
 
     _sup_r11.check_no_override(ctx, "SphericalDroplet", "overlaps")
+    # distance queries are recomputed from the members' current data: nothing is memoised on the (mutable) emulsion
+    from ..rules import io as _io_r12
+
+    _io_r12.check_no_cached_state(ctx, rule="STATELESS")
     ctx.expect("OVERRIDE", 1)
     col.check_pairwise(ctx)
     c07.check_overlaps(ctx)
